@@ -227,6 +227,10 @@ class AsgiResult:
         return sorted((d(k).lower(), d(v)) for k, v in self.headers)
 
 
+class Livelock(Exception):
+    """the application keeps polling receive() although it has been told that the client is gone (a busy loop: it would never return)"""
+
+
 def asgi_call(app, r_or_scope, messages=None, *, extensions=None, send_fail_at=None, disconnect_after_sends=None,
               timeout=20.0):
     """run an ASGI app to completion on a private loop; exceptions are observations.
@@ -246,11 +250,16 @@ def asgi_call(app, r_or_scope, messages=None, *, extensions=None, send_fail_at=N
     if disconnect_after_sends == 0:
         disc.set()
 
+    polled = [0]
+
     async def receive():
         res.receive_calls += 1
         if msgs:
             return msgs.pop(0)
         await disc.wait()
+        polled[0] += 1
+        if polled[0] > 2000:      # the disconnect has been delivered two thousand times and the application asks again
+            raise Livelock("receive() called %d times after http.disconnect was delivered" % polled[0])
         return {"type": "http.disconnect"}
 
     async def send(message):
